@@ -188,7 +188,10 @@ fn history(ctx: &Ctx, rep: &mut Report, case_seed: u64, variant: u64, always_flu
 		2 => delays::slow_site(3, rng.range(100, 600)),    // record published, commit overlay not yet cleaned
 		3 => delays::slow_site(5, rng.range(100, 600)),    // tables written, log overlay not yet cleaned
 		4 => delays::slow_site(6, rng.range(100, 600)),
-		5 => delays::slow_site(15, rng.range(2000, 8000)), // reindex batch planned, not yet published
+		// reindex batch planned, not yet published; every other such history holds the batch for
+		// 0.1-0.4 s: the filler overflows a page of the grown index before the first old table was
+		// migrated and dropped (two old index tables queued under the readers)
+		5 => delays::slow_site(15, if (variant / 14) % 2 == 0 { rng.range(2000, 8000) } else { rng.range(100_000, 400_000) }),
 		6 => delays::slow_site(11, rng.range(2000, 8000)), // old index about to be dropped
 		_ => {},
 	}
